@@ -1,4 +1,4 @@
-"""C25 (passive-damping part): the analytic velocity derivative mjd_passive_vel equals the symbolic derivative of the damper forces mj_springdamper produces."""
+"""C25 (passive-damping and viscous-torque part): the analytic velocity derivative mjd_passive_vel equals the symbolic derivative of the damper forces mj_springdamper produces."""
 import re
 import z3
 from vf import ir, build, llsym, world as W
@@ -15,11 +15,13 @@ SUP = ['src/engine/engine_support.c', 'src/engine/engine_core_util.c', 'src/engi
        'src/engine/engine_util_errmem.c', 'src/engine/engine_memory.c', 'src/engine/engine_core_smooth.c']
 EXPLANATION = ('Instead of finite differences, the damper force is differentiated SYMBOLICALLY: llsym (real-algebraic) runs the real static mj_springdamper with joint velocities, tendon velocities, damping coefficients, damping '
                'polynomials and tendon moment arms symbolic, the resulting qfrc_damper terms are differentiated with respect to every joint velocity (tendon terms through d ten_velocity / d qvel = J), and z3 must show that this '
-               'equals, entry by entry, what the real mjd_passive_vel adds to qDeriv (dense D sparsity over the dofs) - for every value away from the kink of |v| at zero - and that it adds nothing when dampers are disabled.')
-BOUNDS = {'quick': {'model': '2 scalar joints with linear + polynomial damping, one tendon over both dofs'}, 'thorough': {'model': '3 joints, tendon over dofs 0 and 2'}}
-OUTSIDE = ('finite-difference functions mjd_transitionFD / mjd_inverseFD (whole-pipeline stepping); actuator, fluid and Newton-Euler bias derivatives (mjd_actuator_vel, mjd_ellipsoidFluid, mjd_inertiaBoxFluid, mjd_rne_vel); '
+               'equals, entry by entry, what the real mjd_passive_vel adds to qDeriv (dense D sparsity over the dofs) - for every value away from the kink of |v| at zero - and that it adds nothing when dampers are disabled. '
+               'Fluid part: the torque the real mj_viscousForces produces is differentiated symbolically with respect to the angular velocity (through the sqrt of the moment norm) and must equal the 3x3 block of the real static mjd_viscous_torque.')
+BOUNDS = {'quick': {'model': '2 scalar joints with linear + polynomial damping, one tendon over both dofs', 'viscous torque': 'nine concrete semi-axis triples (all six orderings of 0.05/0.12/0.31, two ties, a sphere); angular velocity, density, viscosity, slender and angular drag coefficients symbolic'}, 'thorough': {'model': '3 joints, tendon over dofs 0 and 2'}}
+OUTSIDE = ('finite-difference functions mjd_transitionFD / mjd_inverseFD (whole-pipeline stepping); actuator and Newton-Euler bias derivatives (mjd_actuator_vel, mjd_rne_vel); of the fluid derivatives only the viscous-torque block of mjd_ellipsoidFluid is decided '
+           '(viscous drag, Magnus / Kutta lift, added mass, the J^T B J assembly and mjd_inertiaBoxFluid are not), with concrete semi-axes, zero linear velocity and the moment norm above mjMINVAL; '
            'flex edge damping; velocities exactly zero (|v| is not differentiable there).')
-ASSUMPTIONS = ['real-number semantics', 'ten_velocity = ten_J * qvel (used for the chain rule)', 'viscosity = density = 0, no flex, sleep disabled, no actuator-inherited damping']
+ASSUMPTIONS = ['real-number semantics', 'ten_velocity = ten_J * qvel (used for the chain rule)', 'damping units: viscosity = density = 0, no flex, sleep disabled, no actuator-inherited damping', 'viscous-torque units: density, viscosity, drag coefficients >= 0; linear velocity 0 (the torque rows of both functions do not read it); lift coefficients 0']
 BUDGET = {'quick': 400, 'thorough': 1200}
 _c = {}
 
@@ -95,7 +97,57 @@ def unit_damping(tier, nv, cols, flags):
     return ck
 
 
+SIZE_CONFIGS = {'xyz': (0.05, 0.12, 0.31), 'xzy': (0.05, 0.31, 0.12), 'yxz': (0.12, 0.05, 0.31), 'yzx': (0.31, 0.05, 0.12), 'zxy': (0.12, 0.31, 0.05), 'zyx': (0.31, 0.12, 0.05),
+                'tie_lo': (0.1, 0.1, 0.3), 'tie_hi': (0.3, 0.1, 0.3), 'sphere': (0.2, 0.2, 0.2)}
+
+
+def unit_viscous_torque(tier, cfg):
+    """d(torque of mj_viscousForces)/d(angular velocity), differentiated symbolically, = the 3x3 block the static mjd_viscous_torque returns"""
+    from vf.leaf import Leaf
+    import fractions
+    ck = Checker('viscous_torque_' + cfg, tier, timeout_s=120, semantics='real')
+    sz = [z3.RealVal(str(fractions.Fraction(x))) for x in SIZE_CONFIGS[cfg]]
+    def pre_common(v):
+        return [v['size'][i] == sz[i] for i in range(3)] + [v['lvel'][3 + i] == 0 for i in range(3)] + [v['rho'] >= 0, v['visc'] >= 0, v['slender'] >= 0, v['angc'] >= 0]
+    F = Leaf(ck, mod(), so_passive(), 'mj_viscousForces', [('arr', 'lvel', 6), ('f64', 'rho'), ('f64', 'visc'), ('arr', 'size', 3), ('f64', 'magnus', 0.0), ('f64', 'kutta', 0.0), ('f64', 'blunt', 0.0),
+                                                          ('f64', 'slender'), ('f64', 'angc'), ('arr', 'force', 6, 'out')], pre=pre_common)
+    G = Leaf(ck, mod(), so(), 'mjd_viscous_torque', [('arr', 'D', 9, 'out'), ('arr', 'lvel', 6), ('f64', 'rho'), ('f64', 'visc'), ('arr', 'size', 3), ('f64', 'slender'), ('f64', 'angc')], pre=pre_common)
+    wv = F.v['lvel']; minval = z3.RealVal(str(fractions.Fraction(1e-15)))            # mjMINVAL as the binary64 constant the code compares with (slightly above 10^-15)
+    reach = None
+    for pcf, outf, _, rpf in F.paths():
+        sqf = {str(e[1]): (e[1], e[2]) for e in F.state.log if e[0] == 'sqrt'}
+        for pcg, outg, _, rpg in G.paths():
+            # each executor numbers its sqrt auxiliaries from 1: rename those of the derivative run so that the two runs do not share a name
+            ren = [(e[1], z3.Real('d_' + str(e[1]))) for e in G.state.log if e[0] == 'sqrt']
+            rn = lambda t: z3.substitute(t, *ren) if ren else t
+            sqg = [(rn(e[1]), rn(e[2])) for e in G.state.log if e[0] == 'sqrt']
+            pcg = [rn(c) for c in pcg]; outg = {k: [rn(x) for x in v_] for k, v_ in outg.items()}
+            pc = list(pcg) + [c for c in pcf if not any(c.eq(c2) for c2 in pcg)]
+            # the two runs take the norm of the same vector: equal arguments (proved) give equal roots (t >= 0, t*t = arg is unique)
+            tf = [t for t, a in sqf.values() if 'lvel0' in str(a)]            # the norm of the viscous moment is the only root that reads the angular velocity
+            if len(tf) != 1 or len(sqg) != 1: ck.error('unexpected sqrt terms: forward %d, derivative %d' % (len(tf), len(sqg))); return ck
+            af = sqf[str(tf[0])][1]; tg, ag = sqg[0]
+            def rp(model, witness, rpf=rpf, rpg=rpg):
+                a, da = rpg(model, witness); b_, db = rpf(model, witness)
+                return (a and b_), {'mjd_viscous_torque': da, 'mj_viscousForces': db}
+            same = ck.prove('both functions take the norm of the same viscous-moment vector (size ordering %s)' % cfg, pc, af == ag, site='mjd_viscous_torque:moment-vector', decode=F.decode(), replay=rp)
+            # the lemma 'equal roots' is only used once its premise is proved; otherwise the derivative claims are decided without it
+            smooth = [tg > minval, tf[0] == tg] if same == z3.unsat else [tg > minval, tf[0] > minval]
+            sv = z3.Solver(); sv.set('timeout', 20000); sv.add(*(pc + smooth))
+            if str(sv.check()) == 'unsat': continue            # the clamped branch max(mjMINVAL, norm): outside the claim (not differentiable there); the vacuity twin below needs one smooth path
+            for i in range(3):
+                for j in range(3):
+                    ck.prove('D[%d][%d] = d torque[%d] / d angvel[%d] (torque from the real mj_viscousForces, size ordering %s)' % (i, j, i, j, cfg), pc + smooth, outg['D'][3 * i + j] == diff(outf['force'][i], wv[j], sqf),
+                             site='mjd_viscous_torque:torque-derivative', decode=F.decode(), replay=rp)
+            reach = pc + smooth
+    if reach is None: ck.error('no returning path'); return ck
+    ck.reach('moment norm above mjMINVAL', reach)
+    ck.functions |= {'mj_viscousForces', 'mjd_viscous_torque'}
+    return ck
+
+
 def units(tier):
     u = [('damping_nv2_f0', 'unit_damping', {'nv': 2, 'cols': [0, 1], 'flags': 0}), ('damping_nv2_f1', 'unit_damping', {'nv': 2, 'cols': [0, 1], 'flags': 1})]
     if tier != 'quick': u.append(('damping_nv3_f0', 'unit_damping', {'nv': 3, 'cols': [0, 2], 'flags': 0}))
+    for cfg in SIZE_CONFIGS: u.append(('viscous_torque_' + cfg, 'unit_viscous_torque', {'cfg': cfg}))
     return u
